@@ -59,7 +59,7 @@ def classRules (st : Static) : List Rule → Ctx → M (Ctx × List Rule)
   | rule :: rest, c =>
     if ruleMatches c.svcs rule c.req then do
       let c ←
-        if wantsTrust rule c.req then trustUsername st c (trustName c.req)
+        if wantsTrust rule c.req && !(trustName c.req).isEmpty then trustUsername st c (trustName c.req)
         else pure c
       let c := updReq c fun r => { r with cls := strlcpy63 (rule.cls.getD rule.name) }
       pure (c, { rule with assigned := rule.assigned + 1 } :: rest)
